@@ -105,6 +105,10 @@ class Program:
         try:
             for op in hist['build']:
                 w.step(op)
+            for op in hist.get('pre', []):
+                w.step(op)
+            if w.model.pickups or w.model.solves:
+                w.step({'op': 'update'})
         except (history.Violation, history.Abort):
             raise NotApplicable('lens construction is C01\'s business')
         self.w = w
@@ -125,8 +129,12 @@ class Program:
             raise NotApplicable('empty tolerancing problem')
         self.nominal = self.snapshot()
         m = self.w.model
+        # positions carry round-off of the edit history whenever a gap is
+        # written relatively: thickness variables, thickness pickups, solves
         self.uses_thickness = any(s['type'] == 'thickness'
-                                  for s in self.pspecs + self.cspecs)
+                                  for s in self.pspecs + self.cspecs) or \
+            any(p['attr'] == 'thickness' for p in m.pickups) or \
+            bool(m.solves)
         self.index_on_real_medium = any(
             s['type'] == 'index' and m.surfs[s['k']]['mat'][0] not in
             ('air',) and (m.surfs[s['k']]['mat'][0] != 'ideal' or
@@ -166,6 +174,13 @@ class Program:
     def applicable(self, spec, comp=False):
         m = self.w.model
         k, t = spec['k'], spec['type']
+        # a quantity that a pickup or a solve overwrites is not a free
+        # tolerance / compensator
+        if t in ('radius', 'conic', 'thickness') and any(
+                p['attr'] == t and p['dst'] == k for p in m.pickups):
+            return False
+        if t == 'thickness' and any(s_['k'] - 1 == k for s_ in m.solves):
+            return False
         if not (0 <= k <= m.n - 1):
             return False
         kind = m.surfs[k]['kind']
@@ -556,6 +571,21 @@ def run_one(prop, run_seed, run_index, cfg):
             w.step(op)
     except (history.Violation, history.Abort):
         return execute(prop, empty)
+    pre = []
+    if ch.chance(0.3):
+        # a nominal lens with pickups and / or a solve (made consistent by
+        # one update())
+        sw = {'kinds': ['pickup', 'solve'],
+              'weights': {'pickup': 1, 'solve': 1}, 'nasty': 0.0}
+        for _ in range(ch.randint(1, 3)):
+            op = history.gen_edit(ch, w, sw)
+            if op is None:
+                continue
+            try:
+                if w.step(op):
+                    pre.append(op)
+            except (history.Violation, history.Abort):
+                break
     m = w.model
     mode = ch.weighted([('sens', 1), ('mc', 1.5)], tag='mode')
     perts = []
@@ -614,13 +644,14 @@ def run_one(prop, run_seed, run_index, cfg):
         else:
             steps.append({'op': 'mc', 'n': ch.randint(1, cfg.get('max_n', 5)),
                           'seed': ch.seed32()})
-    hist = {'build': build, 'operands': operands, 'perturbations': perts,
+    hist = {'build': build, 'pre': pre, 'operands': operands,
+            'perturbations': perts,
             'compensators': comps, 'steps': steps,
             'method': ch.pick(['generic', 'least_squares']),
             'tol': ch.pick([1e-5, 1e-3, 1e-8]),
             'driver': 'stub' if ch.chance(0.5) else 'real',
             'shrinkable': ['steps', 'perturbations', 'compensators',
-                           'operands']}
+                           'operands', 'pre']}
     if hist['driver'] == 'stub':
         hist['plan'] = optsim.gen_plan(ch, max(1, len(comps)),
                                        ch.randint(2, 8))
